@@ -97,6 +97,12 @@ func c17Gen(r *core.Rand) (*gtfsrt.FeedMessage, []c17Alert) {
 		rgen.GenAlertBody(r, a)
 		// the wire informed entity of MTA elevator alerts is the platform
 		a.InformedEntity = []*gtfsrt.EntitySelector{{StopId: rgen.S(pl)}}
+		if r.Chance(1, 3) {
+			// an elevator alert whose wire selector carries a Mercury priority (incl. the timetabled no-service ones):
+			// the priority rules are for the OTHER alerts; an elevator alert still joins its group
+			pr := core.Pick(r, []int{2, 3, 4, 2, 3, 4, 1, 5, 16, 40})
+			proto.SetExtension(a.InformedEntity[0], gtfsrt.E_MercuryEntitySelector, &gtfsrt.MercuryEntitySelector{SortOrder: rgen.S(fmt.Sprintf("MTASBWY:%s:%d", st, pr))})
+		}
 		if r.Chance(1, 4) {
 			a.InformedEntity = append(a.InformedEntity, &gtfsrt.EntitySelector{RouteId: rgen.S("A")})
 		}
